@@ -36,8 +36,10 @@ def harness(ctx):
 
 def make_cases(ctx, nprob):
     cases, meta = [], []
-    for _ in range(nprob):
-        p = g.gen_problem(ctx.rng)
+    for k in range(nprob):
+        # every third problem has a planted defect >= 2 (several kernel vectors: pivoting / mutual orthogonalisation
+        # of the null-space basis only matters there)
+        p = g.gen_problem(ctx.rng, family="dense", min_defect=2) if k % 3 == 2 else g.gen_problem(ctx.rng)
         subs = [s for s in g.gen_subsets(ctx.rng, p, 2) if s[1]]
         for S, _ok in subs[:2]:
             ref = None
@@ -102,7 +104,7 @@ def corpus_cases(ctx, corr, exe):
 def correspond(ctx, corr):
     exe = harness(ctx)
     corpus_cases(ctx, corr, exe)
-    cases, meta = make_cases(ctx, ctx.size(25, 1200))
+    cases, meta = make_cases(ctx, ctx.size(75, 1500))
     impl, crashes = run_cases(exe, cases)
     model, _ = run_cases(ctx.driver("drv_ls"), cases)
     refs = {}
@@ -112,6 +114,8 @@ def correspond(ctx, corr):
                   sample={"ops": c, "impl": impl[i]} if i in (0, 7) else None)
         corr.count(f"alg_{alg}_{entry}")
         corr.count("singular" if p["defect"] else "regular")
+        if p["defect"] >= 2:
+            corr.count("defect_ge2")
         corr.count("correlated" if not p["unit_cov"] else "unit_cov")
         corr.count("family_" + p["family"])
         if i in crashes:
@@ -140,6 +144,8 @@ def correspond(ctx, corr):
     tot = corr.stats.get("singular", 0) + corr.stats.get("regular", 0)
     if tot and corr.stats.get("singular", 0) < 0.25 * tot:
         corr.inconclusive.append("fewer than 25% singular problems")
+    if tot and corr.stats.get("defect_ge2", 0) < 0.15 * tot:
+        corr.inconclusive.append("fewer than 15% problems with defect >= 2")
 
 
 def search(ctx, broken, corr):
